@@ -444,9 +444,9 @@ Proof.
   destruct (wsc c); cbn [q_kind]; split; congruence.
 Qed.
 
-Definition els_single (l0 : str) (more : list (str * nat * str * str)) : list qel :=
+Definition els_single (l0 : str) (more : list (str * list str * str * str)) : list qel :=
   line_els _ sq_item l0 ++ more_els _ sq_item more.
-Definition els_double (l0 : list dq_item) (more : list (str * nat * str * list dq_item)) : list qel :=
+Definition els_double (l0 : list dq_item) (more : list (str * list str * str * list dq_item)) : list qel :=
   line_els _ dq_el l0 ++ more_els _ dq_el more.
 
 Definition isbrk_dq (d : dq_item) : bool := dq_is_brk d.
